@@ -226,6 +226,17 @@ func c14Structured(r *prng.Rand) [][]byte {
 	for _, v := range []int{1, 2, 4, 5, 8} {
 		nssai = append(nssai, refconv.SnssaiContents(c13RandSnssai(r, v))...)
 	}
+	// lists in which an entry repeats the slice of an earlier entry in another variant (the same
+	// SST and SD once with and once without a mapped part), in both orders
+	for _, pair := range [][2]int{{4, 8}, {8, 4}, {1, 2}, {4, 5}, {5, 8}, {8, 8}} {
+		a, b2 := c13RandSnssai(r, pair[0]), c13RandSnssai(r, pair[1])
+		b2.SST = a.SST
+		if a.HasSD && b2.HasSD {
+			b2.SD = a.SD
+		}
+		rep := append(refconv.SnssaiContents(a), refconv.SnssaiContents(b2)...)
+		base = append(base, rep, append(refconv.SnssaiContents(c13RandSnssai(r, 1)), rep...))
+	}
 	base = append(base, nssai, refconv.LadnIndication([][]byte{[]byte("internet"), []byte("ims"), r.Bytes(100)}), r.Bytes(8), append([]byte{0x01}, r.Bytes(16)...), r.Bytes(2), rfc1035("ims.mnc001.mcc001.gprs"))
 	// a 0xFF length octet followed by 255+ octets (uint8 wrap-around of "length+1")
 	long := append([]byte{0xff}, r.Bytes(300)...)
